@@ -277,6 +277,12 @@ def gen_cases(tier, seed):
         for su, sv in [(8, 5), (5, 8), (12, 6), (20, 4), (4, 40)]:
             for code in (0, 1):
                 cases.append(dict(kind='surf', su=su, sv=sv, skew=0 if code == 0 else 2, heights='coded:%d' % code))
+    # history dependence: default-option fits (keyword omitted) after fits that used centripetal=True
+    for n in (8, 12):
+        for idx, bits in enumerate(stair_patterns(n, 6)):
+            cases.append(dict(kind='stair', n=n, bits=bits, rank=idx, centripetal=False, omit_flag=True, prior=True))
+    for su, sv in [(3, 4), (4, 5)]:
+        cases.append(dict(kind='surf', su=su, sv=sv, skew=2, heights='coded:1', centripetal=False, omit_flag=True, prior=True))
     return cases
 
 
@@ -293,8 +299,31 @@ def case_weight(c):
     return 50
 
 
+def _cen_kw(case, cen):
+    """the option is omitted (library default = chord length) when the case says so"""
+    if case.get('omit_flag') and not cen:
+        return {}
+    return {'centripetal': cen}
+
+
+def _prior_fits():
+    """earlier fits with the non-default option: later fits that omit the option must still use the default"""
+    from geomdl import fitting
+    pts = [[0.0, 0.0], [1.0, 0.0], [1.0, 3.0], [5.0, 3.0], [5.0, 4.0]]
+    grid = [[float(i * i), float(j), float((i + 2 * j) % 3)] for i in range(4) for j in range(4)]
+    try:
+        fitting.interpolate_curve(pts, 2, centripetal=True)
+        fitting.approximate_curve(pts, 2, centripetal=True, ctrlpts_size=4)
+        fitting.interpolate_surface(grid, 4, 4, 2, 2, centripetal=True)
+        fitting.approximate_surface(grid, 4, 4, 2, 2, centripetal=True, ctrlpts_size_u=3, ctrlpts_size_v=3)
+    except Exception:
+        pass
+
+
 def run_case(case, ctx):
     _self_test()
+    if case.get('prior'):
+        _prior_fits()
     k = case['kind']
     if k == 'lattice':
         _lattice_case(case, ctx)
@@ -377,7 +406,7 @@ def _curve(case, ctx):
                 rc = dict(base, degree=p, centripetal=cen, op='interp')
                 ctx.extra['fits'] += 1
                 try:
-                    crv = fitting.interpolate_curve([list(q) for q in pts], p, centripetal=cen)
+                    crv = fitting.interpolate_curve([list(q) for q in pts], p, **_cen_kw(case, cen))
                 except Exception as e:
                     ctx.check('C11.interp.curve.returns', False, rc, feats, 'a curve', repr(e))
                     crv = None
@@ -400,7 +429,7 @@ def _curve(case, ctx):
                     fa = dict(feats, ncp=m, spans=m - p)
                     ctx.extra['fits'] += 1
                     try:
-                        crv = fitting.approximate_curve([list(q) for q in pts], p, centripetal=cen, ctrlpts_size=m)
+                        crv = fitting.approximate_curve([list(q) for q in pts], p, ctrlpts_size=m, **_cen_kw(case, cen))
                     except Exception as e:
                         ctx.check('C11.approx.curve.returns', False, rc, fa, 'a curve', repr(e))
                         continue
@@ -465,7 +494,7 @@ def _surface(case, ctx):
                 rc = dict(base, degree_u=pu, degree_v=pv, centripetal=cen, op='interp')
                 ctx.extra['fits'] += 1
                 try:
-                    srf = fitting.interpolate_surface([list(q) for q in pts], su, sv, pu, pv, centripetal=cen)
+                    srf = fitting.interpolate_surface([list(q) for q in pts], su, sv, pu, pv, **_cen_kw(case, cen))
                 except Exception as e:
                     ctx.check('C11.interp.surface.returns', False, rc, feats, 'a surface', repr(e))
                     srf = None
@@ -495,8 +524,8 @@ def _surface(case, ctx):
                     fa = dict(feats, ncp_u=mu, ncp_v=mv)
                     ctx.extra['fits'] += 1
                     try:
-                        srf = fitting.approximate_surface([list(q) for q in pts], su, sv, pu, pv, centripetal=cen,
-                                                          ctrlpts_size_u=mu, ctrlpts_size_v=mv)
+                        srf = fitting.approximate_surface([list(q) for q in pts], su, sv, pu, pv, **dict(_cen_kw(case, cen),
+                                                          ctrlpts_size_u=mu, ctrlpts_size_v=mv))
                     except Exception as e:
                         ctx.check('C11.approx.surface.returns', False, rc, fa, 'a surface', repr(e))
                         continue
